@@ -37,6 +37,10 @@ import t4eval
 from common import cfloat, cbool, clist, copt, cpair, cz
 
 THEOREMS = [
+    'C04_quad_congruence', 'C04_frame_transform_gq',
+    'C04_frame_transform_plane', 'C04_frame_transform_sphere',
+    'C04_frame_transform_cylinder', 'C04_frame_transform_cone',
+    'C04_frame_transform_cone_sheet',
 ]
 TRUSTED = [
     'hand-written model coq/C04/Model.v (modelled, tied by execution only)',
